@@ -747,6 +747,95 @@ def sec_nonfinite(R: Run):
                      f"from_bbox(({l!r},{b!r},{r!r},{t!r}), shape={q!r}, anchor={anchor}) returned {o}", sig="bboxnumx-reject")
 
 
+def sec_crs_invariance(R: Run):
+    """from_bbox is CRS-independent arithmetic (theorem from_bbox_crs_of_tuple): the SAME region / resolution / anchor / tol
+    through geographic CRSs (EPSG:4326, EPSG:4283, crs=None -> lon/lat), projected ones and a BoundingBox carrying the CRS,
+    with regions at the limits of the geographic domain -- latitude edges within a pixel of +-90 (inside, on and just
+    beyond), longitudes near +-180 -- where a snapped grid has to reach past the pole / antimeridian to cover the region.
+    Dyadic operands: exact correspondence with the (CRS-free) model for every CRS, the cover / minimal / aligned predicates,
+    and the result must not depend on the CRS; plus a float stream (0.1, 0.7, 0.25 degree pixels) judged by the predicates."""
+    GB, GeoBox, _norm_anchor, geom, resxy_, xy_ = _import()
+    from odc.geo.geom import BoundingBox
+    rng = R.rng
+    crss = ["epsg:4326", "epsg:4283", None, "epsg:3857", "epsg:32755", "bbox:epsg:4326", "bbox:epsg:3577"]
+    anchors = [Anch("s", "default"), Anch("s", "center"), Anch("e", "floating"), Anch("n", F(1, 4)), Anch("x", (F(0), F(1, 2)))]
+
+    def build(crs, bb, **kw):
+        if isinstance(crs, str) and crs.startswith("bbox:"):
+            return GeoBox.from_bbox(BoundingBox(*bb, crs=crs[5:]), **kw)
+        return GeoBox.from_bbox(bb, crs, **kw)
+
+    def near_limit(lim: F, px: F, exact: bool):
+        """an edge within a pixel of +-lim: inside, exactly on it, a hair inside"""
+        d = rng.choice([F(0), px / 4, px / 2, px * 3 / 4, px / 8, F(3, 100) if not exact else px / 16, px])
+        return lim - d
+
+    for it in range(R.pick(300, 3000)):
+        exact = it % 3 != 0
+        if exact:
+            px, py = F(2) ** rng.randint(-3, 1), F(2) ** rng.randint(-3, 1)
+        else:
+            px, py = F(rng.choice([0.1, 0.7, 0.25, 0.3, 1.0])), F(rng.choice([0.1, 0.7, 0.25, 0.3, 1.0]))
+        sx, sy = rng.choice([1, 1, -1]), rng.choice([-1, -1, 1])
+        rx, ry = sx * px, sy * py
+        pole = rng.choice(["N", "S", "both", "none"])
+        span_y = py * rng.choice([1, 3, 10, 37]) + rng.choice([F(0), py / 4, py / 2])
+        if pole == "N":
+            t = near_limit(F(90), py, exact); b = t - span_y
+        elif pole == "S":
+            b = -near_limit(F(90), py, exact); t = b + span_y
+        elif pole == "both":
+            t, b = near_limit(F(90), py, exact), -near_limit(F(90), py, exact)
+        else:
+            b = F(rng.randint(-60, 40)); t = b + span_y
+        am = rng.choice(["E", "W", "both", "none"])
+        span_x = px * rng.choice([1, 4, 20]) + rng.choice([F(0), px / 2])
+        if am == "E":
+            r = near_limit(F(180), px, exact); l = r - span_x
+        elif am == "W":
+            l = -near_limit(F(180), px, exact); r = l + span_x
+        elif am == "both":
+            r, l = near_limit(F(180), px, exact), -near_limit(F(180), px, exact)
+        else:
+            l = F(rng.randint(-100, 100)); r = l + span_x
+        if not exact:
+            l, b, r, t = (F(float(v)) for v in (l, b, r, t))
+        anch = rng.choice(anchors)
+        tight = rng.random() < 0.1
+        tol = rng.choice([TOL2, TOL2, F(0), F(1, 128)])
+        sn = anch.snap(tight)
+        bb = (l, b, r, t)
+        if exact and not (axis_exact(l, r, rx, None if sn is None else sn[0]) and axis_exact(b, t, ry, None if sn is None else sn[1])):
+            R.count("crs-invariance:skipped-inexact")
+            continue
+        fbb = tuple(float(v) for v in bb)
+        kw = dict(resolution=resxy_(float(rx), float(ry)), anchor=anch.py(GB, xy_), tol=float(tol), tight=tight)
+        line = (f"c08 bbox {frac_s(l)} {frac_s(b)} {frac_s(r)} {frac_s(t)} {bool_s(tight)} N {res_tok((rx, ry))} {anch.tok()} {frac_s(tol)}")
+        results = {}
+        for crs in (crss if exact else rng.sample(crss, 3) + ["epsg:4326"]):
+            out = []
+
+            def f():
+                g = build(crs, fbb, **kw)
+                out.append(g)
+                return gb_s(g)
+
+            case = {"fn": "GeoBox.from_bbox", "line": line, "crs": crs, "floats": repr((fbb, float(rx), float(ry), anch.tok(), tight, float(tol)))}
+            if exact:
+                o = R.corr(line + f" # crs={crs}" if False else line, f, sig=f"crs-invariance|{'geographic' if crs in ('epsg:4326', 'epsg:4283', None, 'bbox:epsg:4326') else 'projected'}|pole={pole}|am={am}")
+            else:
+                o = guarded(f)
+            results[crs] = o
+            if out:
+                bbox_oracle(R, out[0], bb, (rx, ry), sn, tol, F(0) if exact else F(1, 10**9), case,
+                            "from-bbox-near-domain-limit" if exact else "from-bbox-near-domain-limit-float")
+            else:
+                R.oracle(False, "from-bbox-raises", case, o, sig="raises")
+        vals = set(results.values())
+        R.oracle(len(vals) == 1, "from-bbox-result-depends-on-crs", {"fn": "GeoBox.from_bbox", "line": line, "floats": repr((fbb, float(rx), float(ry), anch.tok(), tight, float(tol)))},
+                 f"the same region / resolution / anchor / tol gives different grids in different CRSs: {results}", sig=f"crs-invariance-same|pole={pole}")
+
+
 # ------------------------------------------------------------------ public argument forms (Model/C08Args.lean)
 CRS_CODES = {0: "epsg:4326", 1: "epsg:3857", 2: "epsg:32755", 3: "epsg:3577"}
 EPSG_TO_CODE = {4326: 0, 3857: 1, 32755: 2, 3577: 3}
@@ -1785,6 +1874,7 @@ def run(R: Run):
                 call(bbF, tight, rng.randint(1, 5000), None, anch, F(tolf), "float-int-shape", False, F(1, 10**9))
     sec_utm_branch_exact(R)
     sec_forms(R)
+    sec_crs_invariance(R)
     sec_nonfinite(R)
     sec_spelling(R)
     sec_cross_crs(R)
